@@ -39,6 +39,25 @@ func histStorageLine(g *Gen) string {
 }
 
 func histOp(g *Gen, lines []string, prev []Req) Req {
+	if len(prev) > 0 && g.Chance(1, 8) {
+		// the name just asked, in another letter case (names are case-insensitive for some rules only: nothing of the
+		// previous spelling may survive in a reused request object)
+		r := prev[len(prev)-1]
+		if r.Kind == "dns" || r.Kind == "host" {
+			switch g.Intn(3) {
+			case 0:
+				r.Hostname = strings.ToUpper(r.Hostname)
+			case 1:
+				r.Hostname = strings.ToLower(r.Hostname)
+			default:
+				if len(r.Hostname) > 1 {
+					r.Hostname = strings.ToUpper(r.Hostname[:1]) + r.Hostname[1:]
+				}
+			}
+			r.Kind = "dns"
+			return r
+		}
+	}
 	if len(prev) > 0 && g.Chance(1, 4) {
 		// repeat an earlier query, possibly through the other engine or with other client fields
 		r := Pick(g, prev)
